@@ -18,6 +18,56 @@ func init() {
 		return n
 	}
 	models["slices.SortFunc"] = modelSlicesSortFunc
+	// maps.Values(m) is only modelled as the argument of slices.Collect: the iterator is carried as the map itself
+	models["maps.Values"] = func(fc *FnCtx, fr *Frame, st *State, instr ssa.Instruction, c *ssa.CallCommon, args []Val, rt types.Type) Val {
+		if m, ok := args[0].(Term); ok {
+			if _, isMap := unalias(c.Args[0].Type()).Underlying().(*types.Map); isMap {
+				return &AnyVal{V: m, GT: c.Args[0].Type()}
+			}
+		}
+		return havocRes(fc, st, "mapvalues", rt)
+	}
+	// slices.Collect(maps.Values(m)): a fresh slice holding exactly the values of m, one per key, in an
+	// unspecified order (keyOf / idxOf are the two directions of the enumeration)
+	models["slices.Collect"] = func(fc *FnCtx, fr *Frame, st *State, instr ssa.Instruction, c *ssa.CallCommon, args []Val, rt types.Type) Val {
+		av, ok := args[0].(*AnyVal)
+		var mt *types.Map
+		if ok && av.GT != nil {
+			mt, _ = unalias(av.GT).Underlying().(*types.Map)
+		}
+		m, mok := Term{}, false
+		if ok {
+			m, mok = av.V.(Term)
+		}
+		if mt == nil || !mok {
+			fc.abstract(instr, "slices.Collect of an unmodelled iterator: result havoc'd")
+			return havocRes(fc, st, "collect", rt)
+		}
+		hasN, valN, ks, vs := fc.mapHeaps(st, mt)
+		arr := fc.allocRef(st)
+		n := fc.fresh("collectlen", SInt)
+		fc.assume(st, tAnd(tLe(intLit(0), n), tLe(n, bigLit(maxLenS))))
+		fc.nfresh++
+		keyOf := fmt.Sprintf("keyOf_%d", fc.nfresh)
+		idxOf := fmt.Sprintf("idxOf_%d", fc.nfresh)
+		fc.decls.fun(keyOf, []string{SInt}, ks)
+		fc.decls.fun(idxOf, []string{ks}, SInt)
+		ehn := elemHeapName(vs)
+		eh := fc.heapRaw(st, ehn, arrSort(SInt, arrSort(SInt, vs)))
+		row := fc.fresh("collected", arrSort(SInt, vs))
+		fc.setHeap(st, ehn, tStore(eh, arr, row))
+		has := tSelect(st.heaps[hasN], m)
+		val := tSelect(st.heaps[valN], m)
+		res := fc.nameTerm("collected", mkSlice(arr, intLit(0), n, n))
+		off := slOff(res).S
+		krange := rangeFact(T(ks, "("+keyOf+" ci)"), mt.Key()).S
+		fc.assume(st, T(SBool, fmt.Sprintf("(forall ((ci Int)) (! (=> (and (<= 0 ci) (< ci %s)) (and "+krange+" (select %s (%s ci)) (= (select %s (ix %s ci)) (select %s (%s ci))) (= (%s (%s ci)) ci))) :pattern ((select %s (ix %s ci))) :pattern ((%s ci))))",
+			n.S, has.S, keyOf, row.S, off, val.S, keyOf, idxOf, keyOf, row.S, off, keyOf)))
+		fc.assume(st, T(SBool, fmt.Sprintf("(forall ((ck %s)) (! (=> (select %s ck) (and (<= 0 (%s ck)) (< (%s ck) %s) (= (%s (%s ck)) ck))) :pattern ((select %s ck)) :pattern ((%s ck))))",
+			ks, has.S, idxOf, idxOf, n.S, keyOf, idxOf, has.S, idxOf)))
+		fc.usedModels["slices.Collect(maps.Values(m)): fresh slice enumerating exactly the entries of m"] = true
+		return res
+	}
 	waitPrev := models["(*sync.WaitGroup).Wait"]
 	models["(*sync.WaitGroup).Wait"] = func(fc *FnCtx, fr *Frame, st *State, instr ssa.Instruction, c *ssa.CallCommon, args []Val, rt types.Type) Val {
 		// goroutines started without a contract may have written anything in their write set by now
